@@ -23,7 +23,7 @@
    it computes the leftmost-first match the model defines is checked by predicting, for every exported, re-wrapped,
    mutated and hand-assembled text, the import's outcome, moves, status, position and tag). *)
 Require Import LC.model.Prims LC.model.Board LC.model.Text LC.model.San LC.model.Game LC.spec.Chess LC.spec.TextSpec LC.proofs.MoveInv LC.proofs.C05Proofs
-  LC.proofs.C12Proofs LC.proofs.C11Proofs LC.proofs.C13Proofs LC.proofs.Reach LC.proofs.C15Proofs LC.model.Pgn LC.proofs.PgnMatch LC.proofs.PgnText LC.proofs.PgnImport.
+  LC.proofs.C12Proofs LC.proofs.C11Proofs LC.proofs.C13Proofs LC.proofs.Reach LC.proofs.C13Flags LC.proofs.C10Total LC.proofs.C15Proofs LC.model.Pgn LC.proofs.PgnMatch LC.proofs.PgnText LC.proofs.PgnImport.
 Open Scope N_scope.
 Theorem C15_roundtrip : forall K b0 g0 acts, Good K b0 -> game_from_board b0 = Ok g0 -> Forall wf_action acts ->
   let g := run K g0 acts in
@@ -59,3 +59,10 @@ Proof. exact pgn_export_import. Qed.
 (* a blank of the move text may be rendered as a blank or as a line end; everything else is kept *)
 Theorem C15_rewrap_relation : forall a b, Rb blank a b <-> a = b \/ ((a = 32 \/ a = 10) /\ (b = 32 \/ b = 10)).
 Proof. exact Rb_blank_spec. Qed.
+(* the converse direction, for ARBITRARY text: whatever Game::from_pgn accepts is a game from the standard position played
+   by the rules (every recorded move rule-legal, every position the rule successor, every flag the rule's), obtained by
+   a sequence of accepted actions — no byte string makes the importer fabricate an illegal game *)
+Theorem C15_import_sound : forall K t g tag, from_pgn_text K t = Ok (g, tag) ->
+  exists g0 acts, default_game K = Ok g0 /\ Forall wf_action acts /\ g = run K g0 acts /\
+                  RuleChain K (g_positions g) (g_moves g) (g_meta g) /\ GameGood K g.
+Proof. exact import_sound. Qed.
